@@ -6,9 +6,10 @@ sys.path.insert(0, VERIF)
 from propdefs import PROPS, NOT_APPLICABLE
 
 all_ids = [json.loads(l)["id"] for l in open(os.path.join(VERIF, "properties.jsonl"))]
+ready = set(open(os.path.join(VERIF, "props", "READY")).read().split())
 checks = []
 for pid in all_ids:
-    if pid not in PROPS:
+    if pid not in PROPS or pid not in ready:
         continue
     c = PROPS[pid]
     checks.append({
@@ -22,7 +23,7 @@ for pid in all_ids:
         "level_note": c["level_note"],
         "technique": c.get("technique", "Lean 4 theorems over an executable model; model tied to /repo by differential correspondence + regenerated facts"),
     })
-na = [{"property_id": p, "reason": NOT_APPLICABLE.get(p, "check not built yet in this round; see DESIGN.md §8")} for p in all_ids if p not in PROPS]
+na = [{"property_id": p, "reason": NOT_APPLICABLE.get(p, "check not built yet in this round; see DESIGN.md §8")} for p in all_ids if p not in PROPS or p not in ready]
 m = {
     "version": 1,
     "setup_cmd": "./setup.sh",
